@@ -25,8 +25,13 @@ FIXED = [x for x in envstr("VF_FIXED", "").split(";") if x]      # concrete exis
 JUNK = [x for x in envstr("VF_JUNK", "").split(";") if x]        # concrete junk paths, '@' stands for the root
 JPRE = envstr("VF_JPRE", "")                                     # symbolic junk: root-relative prefix
 JSUF = envstr("VF_JSUF", "")
-ROOTS = {"local": "/r", "server": "/z"}
+import os as _os  # noqa: E402
+
+CONFIGS = list(conf.path_configs.keys())
+ROOTS = {c: _os.path.commonprefix(list(get_path_config(c).path_templates.values())).split("{")[0].rstrip("/") for c in CONFIGS}
 HAS_PATH = {c: set(get_path_config(c).path_templates.keys()) for c in ROOTS}
+CONST_TYPES = [x for x in envstr("VF_CONST_TYPES", "p,a,s").split(",") if x]       # types the data configuration backs by constants
+CONST_SIDS = [x for x in envstr("VF_CONST_SIDS", "h,h/a,h/s").split(",") if x]
 
 
 def _name_ok(a: str) -> bool:
@@ -116,7 +121,7 @@ def _expected(kept):
     out = []
     gt = -1
     for (t, s) in forms:
-        if t not in HAS_PATH["local"]:
+        if t not in HAS_PATH[CONFIGS[0]]:
             continue
         segs = s.split("/")
         if ">" in segs:
@@ -158,7 +163,7 @@ def paths_agree(i: int, k: int) -> bool:
         return True
     entries = [EPRE + a + ESUF] + FIXED
     want = None
-    for c in ("local", "server"):
+    for c in CONFIGS:
         kept, paths = _universe(entries, c, j)
         globstub.UNIVERSE[:] = paths
         if want is None:
@@ -185,7 +190,7 @@ def all_agree(i: int) -> bool:
     if not _name_ok(a):
         return True
     entries = [EPRE + a + ESUF] + FIXED
-    kept, paths = _universe(entries, "local", "")
+    kept, paths = _universe(entries, CONFIGS[0], "")
     globstub.UNIVERSE[:] = paths
     want = _expected(kept)
     if want is None:
@@ -196,8 +201,8 @@ def all_agree(i: int) -> bool:
         return True
     # constants-backed levels: project 'h', types 'a' / 's' always exist
     for (t, s) in forms:
-        if t in ("p", "a", "s"):
-            for cand in ("h", "h/a", "h/s"):
+        if t in CONST_TYPES:
+            for cand in CONST_SIDS:
                 if glob_ref.matches(s, cand) and typing_ref.type_string(cand)[0] == t and cand not in want:
                     want.append(cand)
     got = list(FindInAll().find(SEARCH, as_sid=False))
@@ -213,6 +218,6 @@ def reach(i: int) -> bool:
     a, j = chr(i), "q"
     if not _name_ok(a):
         return True
-    kept, paths = _universe([EPRE + a + ESUF] + FIXED, "local", j)
+    kept, paths = _universe([EPRE + a + ESUF] + FIXED, CONFIGS[0], j)
     globstub.UNIVERSE[:] = paths
-    return len(list(FindInPaths("local").find(SEARCH, as_sid=False))) < 2
+    return len(list(FindInPaths(CONFIGS[0]).find(SEARCH, as_sid=False))) < 2
